@@ -348,7 +348,7 @@ func Rotate(seq Sequence, n int) Sequence {
 
 	m := Len(seq) - n
 	p := seq.Bytes()
-	p = append(p[m:], p[:m]...)
+	p = append(append(make([]byte, 0, len(p)), p[m:]...), p[:m]...)
 
 	seq = WithFeatures(seq, ff)
 	seq = WithBytes(seq, p)
